@@ -21,7 +21,16 @@ RULE = ('schemas: 2-6 rules + temporary rules, references (same rule up to 3x), 
         '0..21 (thorough ..101) temporary occurrences spread over 1-4 referenced rules (one possibly referenced twice) with literal '
         'and earlier-pattern constraints at both levels; their names are derived from the rule TEXT: a satisfying assignment with every '
         'unconstrained pattern given a component that occurs nowhere else, the constrained position violated, the literal repeated at '
-        'unconstrained positions, single-position perturbations, one component shorter / longer; names: exhaustive to length 3 (quick) / 4 (thorough) over '
+        'unconstrained positions, single-position perturbations, one component shorter / longer; a regrouping family (the SHAPE of the '
+        'constraints on one pattern): 2-4 rules over one common prefix of 1-3 named patterns + 0-2 literals that continue with the same '
+        'named / temporary pattern and constrain it by ONE sequence of 2-4 options (earlier patterns, literals) cut into constraints in '
+        'different ways (every composition: n constraints x m options with the same flattened order), groups written as `x|y`, '
+        '`$eq(x)|$eq(y)` or `$eq(x, y)`, constraints written in the rule or partly inherited from a base rule (added before inherited), '
+        'same / distinct / no continuation after the pattern, with controls (sequence permuted, one option replaced, one constraint left '
+        'out); the two-option case in every combination of grouping x written/inherited x named/temporary; their names are derived from '
+        'the rule TEXT: every assignment of the prefix patterns over 2 fresh components + the option literals (all equal .. pairwise '
+        'distinct) x the constrained pattern equal to each of them / a third fresh component (exactly one option true, several, all, none) '
+        'x every continuation and a wrong one; names: exhaustive to length 3 (quick) / 4 (thorough) over '
         'literals + 2 fresh components, sampled to length 6, digest-suffixed and empty names; non-trivial = non-empty '
         'name; distinct by (schema text, name)')
 ASSUMPTIONS = ['lark 1.x and grammar.py are exercised, not modelled (the AST is printed to text and parsed by the real parser)',
@@ -430,6 +439,160 @@ def run_wide(ctx):
                      1, 2, [[L.comp_bytes(u) for u in n] for n in names])
 
 
+# ---------------------------------------------------------------------------------------------
+# regrouped constraints: the SHAPE of the constraints on one pattern (an AND of ORs; with `$eq(...)` an AND again inside
+# an option) is a dimension of its own.  Rules that reach one tree node through the same prefix and go on with the same
+# pattern must stay apart exactly when their constraints on that pattern differ -- also when they differ in NOTHING but
+# the grouping of one and the same sequence of options.  Independent random rules never agree on a whole option
+# sequence, so the family builds the rules of a schema from ONE sequence.
+def compositions(n):
+    """every way to cut a sequence of n items into consecutive non-empty groups (as lists of group lengths)"""
+    if n == 0:
+        return [[]]
+    return [[k] + rest for k in range(1, n + 1) for rest in compositions(n - k)]
+
+
+def regroup_cons(target, seq, comp, modes):
+    """the constraints on `target`: seq cut into groups by comp, one constraint (AND) per group; a group is written as
+    alternatives `x | y` ('or'), as alternatives `$eq(x) | $eq(y)` ('each') or as one call `$eq(x, y)` ('all': AND)"""
+    out, i = [], 0
+    for g, mode in zip(comp, modes):
+        atoms = seq[i:i + g]
+        i += g
+        if mode == 'or':
+            opts = list(atoms)
+        elif mode == 'each':
+            opts = [('fn', '$eq', [a]) for a in atoms]
+        else:
+            opts = [('fn', '$eq', list(atoms))]
+        out.append((target, opts))
+    return out
+
+
+def regroup_schema(rng, nseq=None, shapes=None, delivery=None, temp=None, policy=None):
+    """2-4 rules `<prefix>/<target>[/<tail>]` over ONE common prefix (1-3 named patterns, 0-2 literals) whose constraints
+    on the target are regroupings of ONE option sequence: same flattened order, different cuts into constraints /
+    different way of writing a group; a rule either carries its constraints itself or inherits the last groups from a
+    base rule `<prefix>/<target>` and adds the first ones (the compiler puts added before inherited constraints).
+    Optionally one rule with the sequence permuted, one with an option replaced, one with the first / last constraint
+    left out (controls that must stay apart under any merging key).  Returns (ast, fnenv, literals, description of the rules for `regroup_names`)."""
+    srcs = rng.sample(['u', 'v', 'w'], rng.choice([1, 2, 2, 2, 3]))
+    plits = rng.sample(L.LIT_POOL, 4)
+    prefix = [('pat', s) for s in srcs]
+    for _ in range(rng.choice([0, 0, 1, 2])):
+        prefix.insert(rng.randint(0, len(prefix)), ('lit', plits[0]))
+    if temp is None:
+        temp = rng.random() < 0.3
+    atoms_pool = [('pat', s) for s in srcs] * 2 + [('lit', plits[1]), ('lit', plits[2])]
+    n = nseq or rng.choice([2, 2, 2, 3, 3, 4])
+    seq = [rng.choice(atoms_pool) for _ in range(n)]
+    if len(set(seq)) == 1 and len(set(atoms_pool)) > 1:
+        seq[-1] = rng.choice([a for a in atoms_pool if a != seq[0]])
+    comps = compositions(n)
+    nrules = min(len(comps), rng.choice([2, 2, 3]))
+    tails = rng.sample(['one', 'two', 'three', 'four', 'five'], 5)
+    same_tail = rng.random() < 0.12
+    no_tail = rng.random() < 0.12
+    chosen = shapes or rng.sample(comps, nrules)
+    ids = rng.sample(L.RULE_NAMES, 2 * len(chosen) + 2)
+    side = []
+    if rng.random() < 0.25:          # a constraint on a pattern of the prefix, the same in every rule
+        side = [(rng.choice(srcs), [('lit', plits[3])] + ([('lit', plits[1])] if rng.random() < 0.5 else []))]
+    ast, rules, fe = [], [], {}
+    # how the groups are written: all as alternatives / all as `$eq` alternatives / each group on its own
+    policy = policy or rng.choice(['or', 'or', 'or', 'each', 'mixed', 'mixed'])
+
+    def add(rid, bid, comp, sq, how, tail):
+        tgt = rng.choice(['_a', '_b', '_']) if temp else 'a'
+        modes = [rng.choice(['or', 'or', 'or', 'each', 'all']) if policy == 'mixed' else policy for _ in comp]
+        cons = regroup_cons(tgt, sq, comp, modes)
+        if any(m != 'or' for m in modes):
+            fe['$eq'] = 'eq'
+        tl = [('lit', tail)] if tail is not None else []
+
+        def with_side(cs):                                      # the order of the target's constraints is kept
+            cs = list(cs)
+            for c in side:
+                cs.insert(rng.randint(0, len(cs)), c)
+            return cs
+        if how == 'flat' or temp:
+            cs = with_side(cons)
+            ast.append((rid, prefix + [('pat', tgt)] + tl, [cs] if cs else [], []))
+        else:
+            k = rng.randint(0, len(cons))                       # the top rule adds the first k groups, the base has the others
+            inh, added = with_side(cons[k:]), cons[:k]
+            ast.append((bid, prefix + [('pat', tgt)], [inh] if inh else [], []))
+            ast.append((rid, [('ref', bid)] + tl, [added] if added else [], []))
+        rules.append((rid, tail))
+    for i, comp in enumerate(chosen):
+        how = delivery[i] if delivery else rng.choice(['flat', 'flat', 'inherit'])
+        add(ids[2 * i], ids[2 * i + 1], comp, seq, how, None if no_tail else tails[0] if same_tail else tails[i])
+    if delivery is None and rng.random() < 0.3:                 # control: the same groups, the sequence permuted
+        sq = list(seq)
+        rng.shuffle(sq)
+        add(ids[-1], None, rng.choice(comps), sq, 'flat', tails[3])
+    if delivery is None and rng.random() < 0.3:                 # control: one option replaced
+        sq = list(seq)
+        sq[rng.randrange(n)] = rng.choice(atoms_pool)
+        add(ids[-2], None, rng.choice(comps), sq, 'flat', tails[4])
+    if delivery is None and rng.random() < 0.3:                 # control: one constraint (the first / the last group) left out
+        comp = rng.choice([c for c in comps if len(c) > 1])
+        if rng.random() < 0.5:
+            add(ids[-1] + 'x', None, comp[:-1], seq[:n - comp[-1]], 'flat', tails[2])
+        else:
+            add(ids[-1] + 'x', None, comp[1:], seq[comp[0]:], 'flat', tails[2])
+    rng.shuffle(ast)
+    lits = L.all_lits(ast)
+    return ast, fe, lits, (prefix, srcs, rules, [plits[1], plits[2], plits[3]])
+
+
+def regroup_names(rng, desc, cap):
+    """names read off the rule text: every assignment of the prefix patterns over {2 components that occur nowhere in the
+    schema, the literals of the options} -- so all patterns equal, pairwise distinct and every partition in between --
+    times the target equal to each of them / to a third fresh component (exactly ONE option true, several true, all
+    true, none true: what tells AND from OR), times every tail and a wrong one; one component shorter / longer."""
+    prefix, srcs, rules, olits = desc
+    vals = ['n1', 'n2'] + olits[:2]
+    tails = list(dict.fromkeys([r[1] for r in rules if r[1] is not None])) + ['n9']
+    envs = [[]]
+    for s in srcs:
+        envs = [e + [(s, v)] for e in envs for v in (vals if s != srcs[-1] or len(srcs) < 3 else vals[:3])]
+    out = []
+    for e in envs:
+        env = dict(e)
+        if olits[2] not in env.values() and rng.random() < 0.3:
+            env[rng.choice(srcs)] = olits[2]                     # the literal a prefix pattern may be constrained to
+        pre = [c[1] if c[0] == 'lit' else env[c[1]] for c in prefix]
+        for a in dict.fromkeys(list(env.values()) + vals + ['n3']):
+            out.append(pre + [a])
+            for t in tails:
+                out.append(pre + [a, t])
+    if len(out) > cap:
+        out = rng.sample(out, cap)
+    out += [n[:-2] for n in out[:3]] + [n + ['n9'] for n in out[:3]]
+    return out
+
+
+def run_regroup(ctx):
+    rng = ctx.rng
+
+    def go(ast, fe, lits, desc, tag, cap):
+        names = regroup_names(rng, desc, cap)
+        check_schema(ctx, ast, fe, lits, tag, 2, 6, [[L.comp_bytes(u) for u in n] for n in names])
+    # (1) two options, the two groupings (one constraint of two options / two constraints of one option), every way of
+    #     carrying them, named and temporary target; rule names drawn at random, so either rule comes first
+    for deliv in (['flat', 'flat'], ['flat', 'inherit'], ['inherit', 'flat'], ['inherit', 'inherit']):
+        for temp in (False, True):
+            for shapes in ([[1, 1], [2]], [[2], [1, 1]]):
+                for _ in range(ctx.n(1, 4)):
+                    ast, fe, lits, desc = regroup_schema(rng, 2, shapes, deliv, temp, rng.choice(['or', 'or', 'each']))
+                    go(ast, fe, lits, desc, 'regroup.pair', ctx.n(300, 600))
+    # (2) 2-4 options, 2-3 of the 2^(n-1) groupings, with controls
+    for _ in range(ctx.n(45, 900)):
+        ast, fe, lits, desc = regroup_schema(rng)
+        go(ast, fe, lits, desc, 'regroup.gen', ctx.n(300, 600))
+
+
 def run(ctx):
     rng = ctx.rng
     for ast, fe in CORPUS:
@@ -447,3 +610,5 @@ def run(ctx):
     for _ in range(ctx.n(15, 300)):
         ast, fe, lits = g2.schema()
         check_schema(ctx, ast, fe, lits, 'gen-signed', ctx.n(3, 3), ctx.n(10, 100))
+    # last, so that the families above keep their share of the PRNG stream
+    run_regroup(ctx)
